@@ -27,11 +27,12 @@ import (
 )
 
 // C08 — locked and unvested coins cannot leave. Ops (shared with lean/HaqqModel/Driver/C08.lean):
-//   vgrant # k=<keyIdx> off=<startOffset> lockup=<periods> vesting=<periods>          (monitor-only set-up)
-//   vtime # dt=<seconds>
-//   vspend <kind> <acct> <bal> <amt> <now> # k=<keyIdx> path=<path> amt=<S-1|S|S+1|S/2|B|n>
-//        kind/acct/bal/amt/now are filled in by the executor; path ∈ send multisend fee daofund govdeposit delegate-msg
-//   vmon # k=<keyIdx> path=evm-value|delegate-precompile|undelegate amt=<…>            (monitor-only paths)
+//
+//	vgrant # k=<keyIdx> off=<startOffset> lockup=<periods> vesting=<periods>          (monitor-only set-up)
+//	vtime # dt=<seconds>
+//	vspend <kind> <acct> <bal> <amt> <now> # k=<keyIdx> path=<path> amt=<S-1|S|S+1|S/2|B|n>
+//	     kind/acct/bal/amt/now are filled in by the executor; path ∈ send multisend fee daofund govdeposit delegate-msg
+//	vmon # k=<keyIdx> path=evm-value|delegate-precompile|undelegate amt=<…>            (monitor-only paths)
 func init() {
 	Register(&Property{
 		ID:   "C08",
